@@ -13,7 +13,7 @@ WHOLE = ["spurious_reset", "session_change", "eod_session", "cr_session", "dup_a
          "notify_inside", "eod_v0_in_v1", "unexpected:serial_query", "unexpected:reset_query", "unexpected:cache_response",
          "garbage", "err_unsupported_downgrade"] + ["error:%d" % c for c in ERROR_CODES]
 ESTABLISHED = ["err", "close", "intr", "stop", "junk:cache_reset", "junk:prefix", "junk:unknown_type", "junk:eod", "junk:cache_response",
-               "error:2", "error:0", "garbage"]
+               "error:2", "error:0", "garbage", "late_payload"]
 SENDS = ["e1", "partial:3", "partial:7"]
 
 
@@ -241,6 +241,15 @@ def inject(conv, f):
             conv.deliver(R.error_pdu(c.ver, int(kind.split(":")[1]), b"", b"oops"))
         elif kind == "garbage":
             conv.deliver(bytes(rnd.randint(0, 255) for _ in range(rnd.randint(1, 40))))
+        elif kind == "late_payload":
+            # the header of a stray PDU arrives before the refresh deadline, its payload after it: the client re-enters
+            # its wait when the time until the next poll is already negative
+            b = R.prefix_pdu(c.ver, conv.kinds["p4"][2][1], 1)
+            conv.wait(max(0, conv.s.cfg[0] - 1))       # just before the refresh deadline
+            conv.s.data(b[:8])
+            conv.wait(30)                              # within the receive timeout, past the deadline
+            conv.s.data(b[8:])
+            conv.wait(1)                               # the zero-time re-entry of the wait ends here: the client polls
         conv.drop_in_flight(mark)
         conv.steps.append("fault " + fname(f))
         return True
